@@ -97,6 +97,11 @@ func runHistory(s kvs.Storage, cfg config, base time.Time) ([]hist.Rec, map[stri
 				if gone {
 					t := time.Now().Add(-time.Millisecond)
 					expAt = &t
+				} else if c.rng.Intn(4) == 0 {
+					// an expiry far in the future: nothing expires during a history, but value, version and expiry
+					// of one write belong together (see expiryOfAnotherWrite)
+					t := time.Now().Add(time.Hour)
+					expAt = &t
 				}
 				// the Version field of written records is "ignored" by contract: supply hostile ones
 				sup := ""
@@ -335,6 +340,39 @@ func runHistory(s kvs.Storage, cfg config, base time.Time) ([]hist.Rec, map[stri
 	return all, supplied
 }
 
+// expiryOfAnotherWrite (Redis, at the quiescent end of a history): every record that is there now and carries no
+// expiry must still be there, unchanged, after the server clock has passed every expiry that any write of the
+// history carried (1 h). A write takes effect as a whole: the expiry of an overwritten record must not stick
+// to the record that replaced it.
+func expiryOfAnotherWrite(rs *kvmodel.RedisServer, cfg config, recs []hist.Rec, run *report.Run) *finding {
+	ctx := context.Background()
+	type st struct{ ver string }
+	keep := map[string]st{}
+	for i := 0; i < cfg.Keys; i++ {
+		r, err := rs.S.Get(ctx, keyName(i))
+		if err != nil {
+			continue
+		}
+		run.Add("redis_final_records_checked", 1)
+		if r.ExpiresAt == nil {
+			keep[keyName(i)] = st{r.Version}
+		} else {
+			run.Add("redis_final_records_with_expiry", 1)
+		}
+	}
+	if len(keep) == 0 {
+		return nil
+	}
+	rs.MR.FastForward(2 * time.Hour)
+	for k, was := range keep {
+		r, err := rs.S.Get(ctx, k)
+		if err != nil || r.Version != was.ver {
+			return &finding{"redis/write-not-atomic/expiry-of-another-write", fmt.Sprintf("at the end of the history key %s held version %s without an expiry; after the server clock had passed the expiries of the other writes of the history (1 h) Get returned (%q, %v): the expiry of an overwritten record stuck to the record that replaced it", k, was.ver, r.Version, err), witness{Cfg: cfg, Key: k, History: recs}}
+		}
+	}
+	return nil
+}
+
 // monitors over one recorded history; returns (sig, what, witness) triples
 type finding struct {
 	sig, what string
@@ -450,7 +488,7 @@ func firstNonRace(recs []hist.Rec, cfg config) int64 { return 1 << 62 }
 func TestCheck(t *testing.T) {
 	run := report.New("C02", "exploration")
 	defer run.Finish(t)
-	run.Rule("concurrent histories of T in 2..8 clients x K in 4..12 operations over 1..3 keys (mix of Create/Get/Put/CasByVersion/Delete/GetMany/PutMany with unique values and occasional re-writes of identical bytes, inmem: writes of records whose expiry has already passed (logically absent, physically awaiting the lazy purge), hostile Version fields and stale / made-up CAS versions; flavours: mixed, racing creators, racing CAS on one version) recorded at the client boundary and checked (1) by porcupine against the per-key sequential model, (2) for outcomes outside the documented set, (3) for injectivity of version -> write. distinct = distinct outcome words (client, operation, key, outcome in call order) among histories in which operations of different clients on one key really overlapped in time")
+	run.Rule("concurrent histories of T in 2..8 clients x K in 4..12 operations over 1..3 keys (mix of Create/Get/Put/CasByVersion/Delete/GetMany/PutMany with unique values and occasional re-writes of identical bytes, inmem: writes of records whose expiry has already passed (logically absent, physically awaiting the lazy purge), writes carrying an expiry far in the future, hostile Version fields and stale / made-up CAS versions; flavours: mixed, racing creators, racing CAS on one version) recorded at the client boundary and checked (1) by porcupine against the per-key sequential model, (2) for outcomes outside the documented set, (3) for injectivity of version -> write, (4) Redis, at the quiescent end of every history: records without an expiry survive, unchanged, a jump of the server clock past the expiries of the other writes (the expiry of one write must not stick to another). distinct = distinct outcome words (client, operation, key, outcome in call order) among histories in which operations of different clients on one key really overlapped in time")
 	run.Assume("Redis backend runs against the in-process miniredis server with random per-command delays injected by its pre-hook")
 	run.Assume("the version reported together with ErrExist is not judged here (C03)")
 
@@ -521,6 +559,11 @@ func TestCheck(t *testing.T) {
 					}
 					for _, f := range judge(cfg, recs, supplied, run) {
 						run.Violation(f.sig, f.what, f.w)
+					}
+					if rs != nil {
+						if f := expiryOfAnotherWrite(rs, cfg, recs, run); f != nil {
+							run.Violation(f.sig, f.what, f.w)
+						}
 					}
 					if run.SampleN() < 2 && len(recs) > 6 {
 						run.Sample(map[string]any{"config": cfg, "first_operations": recs[:6]})
